@@ -54,7 +54,7 @@ PROPS["C14"] = simple(
     "layout operations (Wrap, DumbWrap, Pad, Indent, Snip at widths 1..30); second part: renderings of generated documents, items and frames "
     "are checked for neutrality at every line end. Non-trivial = the tree has at least one content character; distinct = (tree, layout sequence).",
     shards=dict(quick=8, thorough=16),
-    floor=dict(evaluations=20000, distinct=10000),
+    floor=dict(evaluations=20000, distinct=10000, rendered_strings_checked=3000),
     technique="runtime monitor: terminal attribute state machine over outputs of generated style compositions, compared with per-character expectations",
     level_text="A terminal attribute machine replays every generated output: each content character must be displayed with exactly the flags of the "
                "style functions wrapped around it (colour: one of the wrapping colours, none if none), no attribute may be active at any newline "
@@ -191,7 +191,7 @@ PROPS["C04"] = simple(
     "CR/LF, spaces, extra resource= parameters) and hostile domains (CR/LF, userinfo, path, IPv6 zone); (3) every request issued while building and harvesting generated multi-host "
     "worlds. Non-trivial: every case; distinct = case descriptor.",
     shards=dict(quick=6, thorough=16),
-    floor=dict(evaluations=1500, distinct=1000, requests_parsed=1000, non_https_or_unparsable_urls=50),
+    floor=dict(evaluations=1500, distinct=1000, requests_parsed=1000, non_https_or_unparsable_urls=50, requests_while_browsing=1000),
     technique="runtime monitor: strict grammar over the raw bytes of every connection received by the loopback TLS simulator + plaintext canary (+ strace connect() set in the thorough tier)",
     level_text="The simulator logs the raw bytes of each connection; every one must be exactly 'GET <target> HTTP/1.0 CRLF Host: <authority dialled> CRLF Accept: <one of the two constants> CRLF CRLF' "
                "with a target free of control bytes and fragments whose percent-decoding equals the generator's own path and query; nothing but a TLS ClientHello may reach the plaintext canary and "
